@@ -505,15 +505,22 @@ func (b *byzActor) mutateBlock(blk *types.Block, st sm.State, rs *cstypes.RoundS
 			if first || len(blk.LastCommit.Precommits) == 0 {
 				continue
 			}
-			// bad last commit: not enough power (keep a single precommit)
+			// bad last commit: not enough power (keep the single precommit of the weakest signer, and only
+			// if that really is <= 2/3 of the previous set's power)
 			pcs := make([]*types.CommitSig, len(blk.LastCommit.Precommits))
-			kept := false
+			keep, kp := -1, int64(0)
 			for i, cs := range blk.LastCommit.Precommits {
-				if cs != nil && !kept {
-					pcs[i] = cs
-					kept = true
+				if cs == nil {
+					continue
+				}
+				if _, val := rs.LastValidators.GetByIndex(i); val != nil && (keep < 0 || val.VotingPower < kp) {
+					keep, kp = i, val.VotingPower
 				}
 			}
+			if keep < 0 || 3*kp > 2*rs.LastValidators.TotalVotingPower() {
+				continue
+			}
+			pcs[keep] = blk.LastCommit.Precommits[keep]
 			blk.LastCommit = types.NewCommit(blk.LastCommit.BlockID, pcs)
 			blk.LastCommitHash = nil
 			// the time is the median of the commit: keep it as it was, so only the commit is wrong... it no
